@@ -15,7 +15,8 @@
 // effect. The statement speaks about "the events handed to the pipeline", so the oracle compares the sequences
 // of NON-EMPTY records (whether the plugin calls In("") for an empty line or skips it is unobservable in the
 // pipeline and is not demanded). The strict comparison (empty records included) is only counted
-// (counters strict_equal / strict_differs), never reported.
+// (counters strict_equal / strict_differs_<mode>; on the unchanged tree it differs only in mode "chunk-last",
+// where the harness itself passes the last data chunk with isLastChunk=true and processChunk flushes an empty remainder), never reported.
 package c11
 
 import (
@@ -558,7 +559,7 @@ func (c *checker) checkReq(tc *tcase, idx int, res reqResult) (got []string, ok 
 	if eqStrings(got, want) {
 		r.Count("strict_equal", 1)
 	} else if ok {
-		r.Count("strict_differs", 1)
+		r.Count("strict_differs_"+tc.Mode, 1)
 	}
 	return got, ok
 }
